@@ -1,5 +1,6 @@
 """C11 — untagged unions: the left-most accepting member wins; serialisation uses an accepting member."""
 import itertools
+import types
 import typing as t
 
 from .. import env, genval, gentypes, drive, monitors, model
@@ -23,7 +24,7 @@ RULE = ("unions drawn from overlap families (numeric tower, string readers, list
 ASSUMPTIONS = ["member order is read from typing.get_args of the spelled union object (typing itself flattens and de-duplicates)"]
 ANCHORS = ['converters:UnionConverter.try_convert', 'converters:UnionConverter.collect_errors',
            'converters:UnionConverter.into_data', 'util:flatten_union_args', 'converters:UnionConverter.__init__']
-MIN_COUNTERS = {'quick': {'boundary_checked': 15000, 'hook_checked': 15000, 'winner_not_first': 1500, 'overlap_values': 2500,
+MIN_COUNTERS = {'quick': {'generic_union_checked': 5000, 'twin_union_checked': 5000, 'boundary_checked': 15000, 'hook_checked': 15000, 'winner_not_first': 1500, 'overlap_values': 2500,
                           'serialise_checked': 4000}}
 
 FAMILIES = {
@@ -239,6 +240,115 @@ def run(ctx):
         return Ty('union', gentypes.dedupe_members([Ty('none')] + list(u.a)))
 
     drive.for_each_case(ctx, 'nested', ctx.budget // 2, body_nested, gen=gen_nested)
+
+    # a union that only comes into being through type-variable substitution: `value: Union[A, T, B]` in a generic dataclass,
+    # subscripted with a member type, with one that repeats a later member, or with a union of its own (flattened in place)
+    TV = t.TypeVar('TV')
+
+    def body_generic(i, rng, uty, U):
+        members_py = list(t.get_args(U))
+        if len(members_py) != len(uty.a):
+            ctx.count('spelling_collapsed')
+            return
+        p = rng.randrange(len(members_py))
+        how = rng.choice(('own', 'repeat', 'union'))
+        if how == 'own':
+            arg_members = [members_py[p]]
+        elif how == 'repeat':
+            arg_members = [rng.choice(members_py)]
+        else:
+            arg_members = rng.sample(members_py, min(2, len(members_py)))
+        written = members_py[:p] + [TV] + members_py[p + 1:]
+        try:
+            ann = {'value': t.Union[tuple(written)]}
+            G = types.new_class(f"G{next(_serial)}", (env.PaneBase, t.Generic[TV]), {}, lambda ns: ns.update({'__annotations__': ann, '__module__': __name__}))
+            arg = arg_members[0] if len(arg_members) == 1 else t.Union[tuple(arg_members)]
+            GA = G[arg]
+        except Exception as e:
+            ctx.count('generic_unbuildable')
+            ctx.mark('generic_build_errors', f"{type(e).__name__}: {str(e)[:80]}")
+            return
+        expected = []
+        for m in members_py[:p] + arg_members + members_py[p + 1:]:
+            if not any(m is e_ or m == e_ for e_ in expected):
+                expected.append(m)
+        vals = [genval.member(m, rng) for m in uty.a] + [rng.choice(POOL_VALUES) for _ in range(3)]
+        for v in vals:
+            out = observe(GA.from_data, {'value': v})
+            j, mo = first_success(expected, v)
+            if j == 'escape' or out.kind == 'escape':
+                ctx.count('escapes_skipped')
+                continue
+            ctx.count('generic_union_checked')
+            ctx.case(('generic', how, tuple(m.k for m in uty.a), p, j), nontrivial=True)
+            wit = {'written': short(t.Union[tuple(written)], 300), 'argument': short(arg, 200), 'expected_members_in_order': short(expected, 300),
+                   'value': short(v, 200), 'outcome': out.brief(), 'first_accepting_member': j, 'member_outcome': mo.brief() if mo else None}
+            if (j is None) != (out.kind != 'value'):
+                ctx.violation('union-succeeds-iff-a-member-does', 'generic', i, wit, mech='generic-substitution:accept-mismatch')
+                return
+            if j is None:
+                continue
+            ok, why = deep_typed_eq(mo.val, out.val.value)
+            ok2, _ = deep_typed_eq(out.val.value, mo.val)
+            if not (ok and ok2):
+                ctx.violation('leftmost-member-wins', 'generic', i, {**wit, 'why': why}, mech='generic-substitution:not-leftmost')
+                return
+
+    drive.for_each_case(ctx, 'generic', ctx.budget // 3, body_generic, gen=gen_union)
+
+    # the same members in two orders, each inside a wrapper that compares equal for both (PEP 585 generics and type literals are
+    # not cached by typing, but `list[Union[A, B]] == list[Union[B, A]]`): each must still go by ITS OWN order, whichever came first
+    def body_twins(i, rng, uty, U):
+        members_py = list(t.get_args(U))
+        if len(members_py) != len(uty.a) or len(members_py) < 2:
+            ctx.count('spelling_collapsed')
+            return
+        orders = [members_py, list(reversed(members_py))]
+        if len(members_py) > 2:
+            sh = members_py[:]
+            rng.shuffle(sh)
+            orders.append(sh)
+        wrap = rng.choice(('list', 'dict', 'tuple', 'tuplit', 'struct'))
+        def wrapped(ms):
+            u = t.Union[tuple(ms)]
+            if t.get_args(u) != tuple(ms):
+                return None
+            return {'list': lambda: list[u], 'dict': lambda: dict[str, u], 'tuple': lambda: tuple[u, int], 'tuplit': lambda: (u, int),
+                    'struct': lambda: {'k': u}}[wrap]()
+        def place(v):
+            return {'list': [v], 'dict': {'k': v}, 'tuple': [v, 0], 'tuplit': [v, 0], 'struct': {'k': v}}[wrap]
+        def take(x):
+            return {'list': lambda: x[0], 'dict': lambda: x['k'], 'tuple': lambda: x[0], 'tuplit': lambda: x[0], 'struct': lambda: x['k']}[wrap]()
+        vals = [genval.member(m, rng) for m in uty.a] + [rng.choice(POOL_VALUES) for _ in range(2)]
+        rng.shuffle(orders)
+        for ms in orders:
+            W = wrapped(ms)
+            if W is None:
+                ctx.count('spelling_collapsed')
+                continue
+            for v in vals:
+                out = observe(env.from_data, place(v), W)
+                j, mo = first_success(ms, v)
+                if j == 'escape' or out.kind == 'escape':
+                    ctx.count('escapes_skipped')
+                    continue
+                ctx.count('twin_union_checked')
+                ctx.case(('twins', wrap, tuple(m.k for m in uty.a), j), nontrivial=True)
+                wit = {'type': short(W, 300), 'members_in_order': short(ms, 300), 'value': short(v, 200), 'outcome': out.brief(),
+                       'first_accepting_member': j, 'member_outcome': mo.brief() if mo else None}
+                if (j is None) != (out.kind != 'value'):
+                    ctx.violation('union-succeeds-iff-a-member-does', 'twins', i, wit, mech='reordered-twin:accept-mismatch')
+                    return
+                if j is None:
+                    continue
+                got = take(out.val)
+                ok, why = deep_typed_eq(mo.val, got)
+                ok2, _ = deep_typed_eq(got, mo.val)
+                if not (ok and ok2):
+                    ctx.violation('leftmost-member-wins', 'twins', i, {**wit, 'why': why}, mech='reordered-twin:not-leftmost')
+                    return
+
+    drive.for_each_case(ctx, 'twins', ctx.budget // 3, body_twins, gen=gen_union)
 
     if ctx.tier == 'thorough':
         # all permutations of <=4 members per family
